@@ -369,6 +369,41 @@ func checkTokenLocation(ix *srcIndex, t token.Token, pastEOF int) string {
 			return ""
 		}
 		i := 0
+		if len(rs) > 0 && rs[0] == '{' {
+			// the operand is a long string `{delim"…"delim}`: skip to its closing sequence
+			q := 1
+			for q < len(rs) && rs[q] != '"' {
+				q++
+			}
+			closing := append(append([]rune{'"'}, rs[1:min(q, len(rs))]...), '}')
+			i = q + 1
+			for i+len(closing) <= len(rs) && string(rs[i:i+len(closing)]) != string(closing) {
+				i++
+			}
+			i += len(closing)
+			for i < len(rs) && (rs[i] == ' ' || rs[i] == '\t') {
+				i++
+			}
+			if i < len(rs) && rs[i] == '%' {
+				return ""
+			}
+			i = 0
+		}
+		if len(rs) > 0 && rs[0] == '"' {
+			// the operand is a string literal (no escapes in VCL: the next quote ends it)
+			i = 1
+			for i < len(rs) && rs[i] != '"' {
+				i++
+			}
+			i++
+			for i < len(rs) && (rs[i] == ' ' || rs[i] == '\t') {
+				i++
+			}
+			if i < len(rs) && rs[i] == '%' {
+				return ""
+			}
+			i = 0
+		}
 		for i < len(rs) && rs[i] != '%' && rs[i] != ';' && rs[i] != '{' && rs[i] != '}' && i < 64 {
 			i++
 		}
